@@ -9,6 +9,14 @@
 //   [@c|@e|@f|@p] findsec <S<i>|file> <depth|max> <filter> | findsrc <R<i>|B<i>> <depth|max> <filter> | related <sec> <filter>
 //   [@..] inherited <sec> | refblocks|refarrays|reftags|refmtags|refsources <sec> | srcarrays|srctags|srcmtags <src> | parent <src>
 //   filter: all | id <ref> | name <s:hex> | type <s:hex> | ids <n> <ref>...     ref: S<i> | R<i> | X | N
+//           typei <s:hex>  = TypeFilter(str, false) | typere <s:hex> = TypeFilter(boost::regex(str))
+//           meta <ref> = MetadataFilter<Source> | hassrc <ref> = SourceFilter<Source>      (source searches / enumerations only)
+//           default = the call is made with no argument at all (depth must be max) | nofilter = File::findSections(size_t)
+//   [@..] enum <S<i>|file|R<i>|B<i>> <filter>            sections(filter) / sources(filter): the depth-1 enumeration
+//   [@..] enuma|enumt|enumm B<i> <efilter> | enumb <efilter>   Block::dataArrays/tags/multiTags(filter), File::blocks(filter)
+//           efilter: all | id <A|T|M|B><i> | meta <ref> | srcf <ref>
+//   [@..] enump <sec> all | id P<i> | name <s:hex>        Section::properties(filter)
+//   [@..] refarrays_in|reftags_in|refmtags_in|refsources_in <sec> <B<i>|none>    the block-restricted overloads
 // Handle routes of a query (the answer must not depend on them):
 //   @c the handle the entity was created through (after a reopen: the handle fetched at the reopen)
 //   @e the handle kept by the last `peek` of the entity (falls back to @c)
@@ -39,6 +47,8 @@ static std::vector<EntInfo<nix::DataArray>> arrays;
 static std::vector<EntInfo<nix::Tag>> tags;
 static std::vector<EntInfo<nix::MultiTag>> mtags;
 static int nprops = 0;
+static std::vector<std::string> prop_ids;
+static std::unordered_map<std::string, int> hidden;   // ids of the drivers' own positions arrays (not part of the script)
 static std::unordered_map<std::string, int> ord_sec, ord_src, ord_blk, ord_arr, ord_tag, ord_mtag, ord_prop;
 
 static void dead() { throw std::runtime_error("reference to a deleted or unknown entity"); }
@@ -102,6 +112,19 @@ static std::string ref_id(const std::string &t) {
     return "nosuchid";
 }
 
+// filters that only exist for sources (a Section has neither metadata() nor hasSource())
+template<typename T>
+static typename nix::util::Filter<T>::type more_filters(const std::vector<std::string> &t, size_t at) {
+    throw std::logic_error("bad filter " + t.at(at));
+}
+template<>
+nix::util::Filter<nix::Source>::type more_filters<nix::Source>(const std::vector<std::string> &t, size_t at) {
+    const std::string &k = t.at(at);
+    if (k == "meta") return nix::util::MetadataFilter<nix::Source>(ref_id(t.at(at + 1)));
+    if (k == "hassrc") return nix::util::SourceFilter<nix::Source>(ref_id(t.at(at + 1)));
+    throw std::logic_error("bad filter " + k);
+}
+
 template<typename T>
 static typename nix::util::Filter<T>::type parse_filter(const std::vector<std::string> &t, size_t at) {
     const std::string &k = t.at(at);
@@ -114,14 +137,41 @@ static typename nix::util::Filter<T>::type parse_filter(const std::vector<std::s
         for (size_t i = at + 2; i < t.size(); i++) ids.push_back(ref_id(t[i]));
         return nix::util::IdsFilter<T>(ids);
     }
-    throw std::logic_error("bad filter " + k);
+    if (k == "typei") return nix::util::TypeFilter<T>(dec_str(t.at(at + 1)), false);
+    if (k == "typere") return nix::util::TypeFilter<T>(boost::regex(dec_str(t.at(at + 1))));
+    return more_filters<T>(t, at);
+}
+
+// ids of entities other than sections / sources
+static std::string ent_ref_id(const std::string &t) {
+    long k = tailnum(t);
+    if (t[0] == 'A') return (k >= 0 && k < (long)arrays.size() && !arrays[k].id.empty()) ? arrays[k].id : "unknown-" + t;
+    if (t[0] == 'T') return (k >= 0 && k < (long)tags.size() && !tags[k].id.empty()) ? tags[k].id : "unknown-" + t;
+    if (t[0] == 'M') return (k >= 0 && k < (long)mtags.size() && !mtags[k].id.empty()) ? mtags[k].id : "unknown-" + t;
+    if (t[0] == 'B') return (k >= 0 && k < (long)blocks.size()) ? blocks[k].h.id() : "unknown-" + t;
+    if (t[0] == 'P') return (k >= 0 && k < (long)prop_ids.size() && !prop_ids[k].empty()) ? prop_ids[k] : "unknown-" + t;
+    return ref_id(t);
+}
+
+// efilter: all | id <ref> | meta <ref> | srcf <ref>   (T = DataArray / Tag / MultiTag)
+template<typename T>
+static typename nix::util::Filter<T>::type parse_efilter(const std::vector<std::string> &t, size_t at) {
+    const std::string &k = t.at(at);
+    if (k == "all") return nix::util::AcceptAll<T>();
+    if (k == "id") return nix::util::IdFilter<T>(ent_ref_id(t.at(at + 1)));
+    if (k == "meta") return nix::util::MetadataFilter<T>(ref_id(t.at(at + 1)));
+    if (k == "srcf") return nix::util::SourceFilter<T>(ref_id(t.at(at + 1)));
+    throw std::logic_error("bad entity filter " + k);
 }
 
 template<typename T>
 static std::string show(const std::vector<T> &v, const std::unordered_map<std::string, int> &ord) {
     std::ostringstream o;
-    o << v.size();
+    size_t n = 0;
+    for (const auto &e : v) if (!hidden.count(e.id())) n++;
+    o << n;
     for (const auto &e : v) {
+        if (hidden.count(e.id())) continue;         // a block's positions array exists only so that multi-tags can be created
         auto it = ord.find(e.id());
         if (it == ord.end()) o << " ?"; else o << " " << it->second;
     }
@@ -170,7 +220,7 @@ static std::string handle(const std::vector<std::string> &t0) {
     if (c == "new") {
         secs.clear(); srcs.clear(); blocks.clear(); arrays.clear(); tags.clear(); mtags.clear();
         ord_sec.clear(); ord_src.clear(); ord_blk.clear(); ord_arr.clear(); ord_tag.clear(); ord_mtag.clear(); ord_prop.clear();
-        nprops = 0;
+        nprops = 0; prop_ids.clear(); hidden.clear();
         if (file) file.close();
         file = nix::File::open(workdir + "/c20.nix", nix::FileMode::Overwrite);
         return "-";
@@ -230,8 +280,9 @@ static std::string handle(const std::vector<std::string> &t0) {
     }
     if (c == "prop") {
         int k = nprops++;
+        prop_ids.push_back("");
         nix::Property p = live_sec(dec_int(t.at(1))).h.createProperty(dec_str(t.at(2)), nix::DataType::Int32);
-        ord_prop[p.id()] = k;
+        ord_prop[p.id()] = k; prop_ids[k] = p.id();
         return "P" + std::to_string(k);
     }
     if (c == "link") {
@@ -284,6 +335,7 @@ static std::string handle(const std::vector<std::string> &t0) {
         if (!blk.has_pos) {     // hidden positions array, created with the first multi-tag of the block
             blk.pos = blk.h.createDataArray("__pos", "pos", nix::DataType::Double, nix::NDSize({1}));
             blk.has_pos = true;
+            hidden[blk.pos.id()] = 1;
         }
         nix::MultiTag a = blk.h.createMultiTag(name, "mtag", blk.pos);
         mtags[k].h = a; mtags[k].id = a.id(); ord_mtag[a.id()] = k;
@@ -337,6 +389,53 @@ static std::string handle(const std::vector<std::string> &t0) {
         return "-";
     }
     // ---- queries ----
+    if (c == "findsec" && (t.at(3) == "default" || t.at(3) == "nofilter")) {
+        const std::string &start = t.at(1), &d = t.at(2);
+        std::vector<nix::Section> r;
+        if (start == "file") r = (t.at(3) == "default" || d == "max") ? file.findSections() : file.findSections((size_t)dec_u64(d));
+        else r = sec_by(route, tailnum(start)).findSections();
+        return show(r, ord_sec);
+    }
+    if (c == "findsrc" && t.at(3) == "default") {
+        const std::string &start = t.at(1);
+        std::vector<nix::Source> r = start[0] == 'B' ? blk_by(route, tailnum(start)).findSources()
+                                                     : src_by(route, tailnum(start)).findSources();
+        return show(r, ord_src);
+    }
+    if (c == "enum") {
+        const std::string &start = t.at(1);
+        if (start == "file") return show(file.sections(parse_filter<nix::Section>(t, 2)), ord_sec);
+        if (start[0] == 'S') return show(sec_by(route, tailnum(start)).sections(parse_filter<nix::Section>(t, 2)), ord_sec);
+        if (start[0] == 'B') return show(blk_by(route, tailnum(start)).sources(parse_filter<nix::Source>(t, 2)), ord_src);
+        return show(src_by(route, tailnum(start)).sources(parse_filter<nix::Source>(t, 2)), ord_src);
+    }
+    if (c == "enuma") return show(blk_by(route, tailnum(t.at(1))).dataArrays(parse_efilter<nix::DataArray>(t, 2)), ord_arr);
+    if (c == "enumt") return show(blk_by(route, tailnum(t.at(1))).tags(parse_efilter<nix::Tag>(t, 2)), ord_tag);
+    if (c == "enumm") return show(blk_by(route, tailnum(t.at(1))).multiTags(parse_efilter<nix::MultiTag>(t, 2)), ord_mtag);
+    if (c == "enumb") {
+        const std::string &k = t.at(1);
+        if (k == "all") return show(file.blocks(), ord_blk);
+        if (k == "id") return show(file.blocks(nix::util::IdFilter<nix::Block>(ent_ref_id(t.at(2)))), ord_blk);
+        if (k == "meta") return show(file.blocks(nix::util::MetadataFilter<nix::Block>(ref_id(t.at(2)))), ord_blk);
+        throw std::logic_error("bad block filter " + k);
+    }
+    if (c == "enump") {
+        nix::Section s = sec_by(route, dec_int(t.at(1)));
+        const std::string &k = t.at(2);
+        if (k == "all") return show(s.properties(), ord_prop);
+        if (k == "id") return show(s.properties(nix::util::IdFilter<nix::Property>(ent_ref_id(t.at(3)))), ord_prop);
+        if (k == "name") return show(s.properties(nix::util::NameFilter<nix::Property>(dec_str(t.at(3)))), ord_prop);
+        throw std::logic_error("bad property filter " + k);
+    }
+    if (c == "refarrays_in" || c == "reftags_in" || c == "refmtags_in" || c == "refsources_in") {
+        nix::Section s = sec_by(route, dec_int(t.at(1)));
+        nix::Block b;                                       // `none` stays a none Block
+        if (t.at(2) != "none") b = live_blk(tailnum(t.at(2))).h;
+        if (c == "refarrays_in") return show(s.referringDataArrays(b), ord_arr);
+        if (c == "reftags_in") return show(s.referringTags(b), ord_tag);
+        if (c == "refmtags_in") return show(s.referringMultiTags(b), ord_mtag);
+        return show(s.referringSources(b), ord_src);
+    }
     if (c == "findsec") {
         const std::string &start = t.at(1), &d = t.at(2);
         auto f = parse_filter<nix::Section>(t, 3);
